@@ -293,3 +293,43 @@ package tengo
 //@ func interface Object.Call
 //@   props C08
 //@   assigns *
+
+// ---------------------------------------------------------------------------
+// results of + on containers own their storage (C01), immutable operands are
+// never handed out as mutable storage (C09)
+// ---------------------------------------------------------------------------
+
+//@ func (*Array).BinaryOp
+//@   props C01 C09
+//@   assigns nothing
+//@   ensures concat_kind{C01}: op == token.Add && is(rhs, *Array) ==> res1 == nil && is(res0, *Array)
+//@   ensures concat_len{C01}: op == token.Add && is(rhs, *Array) ==> len(res0.(*Array).Value) == len(o.Value) + len(rhs.(*Array).Value)
+//@   ensures concat_left{C01}: op == token.Add && is(rhs, *Array) ==> forall i in 0..len(o.Value) :: res0.(*Array).Value[i] == old(o.Value[i])
+//@   ensures concat_right{C01}: op == token.Add && is(rhs, *Array) ==> forall i in 0..len(rhs.(*Array).Value) :: res0.(*Array).Value[len(o.Value)+i] == old(rhs.(*Array).Value[i])
+//@   ensures own_storage{C01,C09}: res0 != nil ==> res0 == o || fresh(res0.(*Array).Value)
+//@   ensures unsupported{C01}: !(op == token.Add && is(rhs, *Array)) ==> res0 == nil && res1 == ErrInvalidOperator
+
+//@ func (*ImmutableArray).BinaryOp
+//@   props C01 C09
+//@   assigns nothing
+//@   ensures concat_kind{C01}: op == token.Add && is(rhs, *ImmutableArray) ==> res1 == nil && is(res0, *Array)
+//@   ensures concat_len{C01}: op == token.Add && is(rhs, *ImmutableArray) ==> len(res0.(*Array).Value) == len(o.Value) + len(rhs.(*ImmutableArray).Value)
+//@   ensures own_storage{C09}: res0 != nil ==> len(res0.(*Array).Value) == 0 || fresh(res0.(*Array).Value)
+//@   ensures unsupported{C01}: !(op == token.Add && is(rhs, *ImmutableArray)) ==> res0 == nil && res1 == ErrInvalidOperator
+
+//@ func (*Bytes).BinaryOp
+//@   props C01 C06
+//@   assigns nothing
+//@   ensures concat_len{C01}: res0 != nil ==> is(res0, *Bytes) && len(res0.(*Bytes).Value) == len(o.Value) + len(rhs.(*Bytes).Value)
+//@   ensures own_storage{C01}: res0 != nil ==> fresh(res0.(*Bytes).Value)
+//@   ensures limit{C06}: op == token.Add && is(rhs, *Bytes) && len(o.Value) + len(rhs.(*Bytes).Value) > MaxBytesLen ==> res0 == nil && res1 == ErrBytesLimit
+//@   ensures unsupported{C01}: !(op == token.Add && is(rhs, *Bytes)) ==> res0 == nil && res1 == ErrInvalidOperator
+
+//@ func builtinAppend
+//@   props C01 C09
+//@   let a0 = old(args[0])
+//@   ensures argc{C01}: len(args) < 2 ==> res0 == nil && res1 == ErrWrongNumArguments
+//@   ensures kind{C01}: len(args) >= 2 && (is(a0, *Array) || is(a0, *ImmutableArray)) ==> res1 == nil && is(res0, *Array)
+//@   ensures length{C01}: len(args) >= 2 && is(a0, *Array) ==> len(res0.(*Array).Value) == old(len(args[0].(*Array).Value)) + len(args) - 1
+//@   ensures immutable_untouched{C09}: len(args) >= 2 && is(a0, *ImmutableArray) ==> fresh(res0.(*Array).Value)
+//@   assigns args[0].(*Array).Value[*]
